@@ -12,6 +12,7 @@ CSV path, compared bitwise.
 from __future__ import annotations
 
 import copy
+import json
 import shutil
 
 import numpy as np
@@ -553,6 +554,32 @@ def paths_cell(cell):
                         got = C.state(rest)
                         if got != want:
                             viol("restored-state-differs:path", f"checkpoint written to the folder {name!r} ({style}) restores as another state: {diff(want, got)[:3]}", case)
+                        elif style == "str" and any(ord(ch) > 127 for ch in name):
+                            # the same folder read back by ANOTHER interpreter whose locale encoding is not UTF-8 (C locale, UTF-8 mode off):
+                            # the folder is copied to an ASCII path first, so only the file CONTENTS carry non-ASCII text
+                            import subprocess
+                            import sys as _sys
+
+                            from vf.canon import digest
+
+                            # (a run whose SAVING FOLDER carries the name, so that the name is part of the stored configuration)
+                            auto = C.build(dict(cfg, saving_folder=str(root / "json" / (name + "_auto"))))
+                            with quiet():
+                                auto.calibrate(2)
+                            want_auto = C.state(auto)
+                            ascii_copy = root / "json" / "ascii_copy"
+                            shutil.rmtree(ascii_copy, ignore_errors=True)
+                            shutil.copytree(root / "json" / (name + "_auto"), ascii_copy)
+                            env = dict(os.environ, LC_ALL="C", LANG="C", PYTHONUTF8="0", PYTHONCOERCECLOCALE="0", PYTHONIOENCODING="utf-8")
+                            pr = subprocess.run([_sys.executable, "-m", "vf.checks.c04_sub", str(ascii_copy), json.dumps(cfg)], capture_output=True, text=True, env=env, check=False)
+                            line = [ln for ln in pr.stdout.splitlines() if ln.startswith(("STATE ", "RAISED "))]
+                            res["evaluations"] += 1
+                            if not line:
+                                viol("restore-raises:other-locale", f"restoring the folder in an interpreter under the C locale failed: {pr.stderr[-300:]}", case)
+                            elif line[0].startswith("RAISED"):
+                                viol("restore-raises:other-locale", f"a checkpoint whose saving folder was {name!r} cannot be restored by an interpreter under the C locale: {line[0][7:]}", case)
+                            elif line[0] != "STATE " + digest(want_auto):
+                                viol("restored-state-differs:other-locale", f"a checkpoint whose saving folder was {name!r} restores as another state in an interpreter under the C locale", case)
                     except Exception as e:  # noqa: BLE001
                         viol("restore-raises:path", f"save/restore through the folder {name!r} ({style}) raised {type(e).__name__}: {e}", case)
                     finally:
